@@ -129,6 +129,18 @@ func buildCorpus() {
 		g = mkGraph(n, func(i, j int) bool { return j == n-1 })
 		addBoth(g, fmt.Sprintf("star centred at n-1, n=%d", n))
 	}
+	// sparse graphs on up to 4096 vertices (k = 11, 12 bits per vertex number): a few edges among
+	// high-numbered vertices, so that the x fields use their top bits
+	for _, n := range []int{1025, 2048, 2049, 3000, 4096} {
+		func() {
+			defer func() { recover() }()
+			sg := graph.NewSparse(n, nil)
+			for _, e := range [][2]int{{n - 1, n - 2}, {n - 1, n / 2}, {n/2 + 1, 3}, {n - 3, n/2 + 2}, {n - 5, n - 9}, {n/2 + 7, n / 2}, {n - 2, 0}} {
+				sg.AddEdge(e[0], e[1])
+			}
+			add("s6", graph.Sparse6Encode(sg), fmt.Sprintf("sparse6 of a 7-edge graph on %d vertices", n))
+		}()
+	}
 	// optional headers
 	for i := 0; i < 40; i += 3 {
 		c := corpus[i*7%len(corpus)]
@@ -320,7 +332,7 @@ func (e *eng) decodeOne(kind, s, how string) {
 	if g.N() <= 150 {
 		e.prev, e.prevAdj, e.prevDesc = g, adjacency(g), fmt.Sprintf("%s(%q)", fn, clip(s))
 	}
-	if g.N() > 300 {
+	if g.N() > 300 && !(kind == "s6" && g.M() <= 2000) {
 		return
 	}
 	// fixpoint: encode, decode again, same graph
